@@ -67,6 +67,12 @@ def _sym_fmt(f, args):
     return models.sym_fmt(f, args)
 
 
+def _sym_join(sep, items):
+    from . import symstr
+
+    return symstr.sym_join(sep, items)
+
+
 class _T(ast.NodeTransformer):
     def __init__(self, mod):
         self.mod = mod
@@ -123,6 +129,13 @@ class _T(ast.NodeTransformer):
             return ast.Call(ast.Name("_sym_getitem", ast.Load()), [node.value, node.slice], [])
         return node
 
+    def visit_Call(self, node):
+        self.generic_visit(node)
+        f = node.func
+        if isinstance(f, ast.Attribute) and f.attr == "join" and isinstance(f.value, ast.Constant) and isinstance(f.value.value, str) and len(node.args) == 1 and not node.keywords:
+            return ast.Call(ast.Name("_sym_join", ast.Load()), [f.value, node.args[0]], [])
+        return node
+
     def visit_BinOp(self, node):
         self.generic_visit(node)
         if isinstance(node.op, ast.Mod) and isinstance(node.left, ast.Constant) and isinstance(node.left.value, str):
@@ -138,7 +151,7 @@ class _Loader(importlib.machinery.SourceFileLoader):
         return compile(tree, path, "exec", dont_inherit=True, optimize=_optimize)
 
     def exec_module(self, module):
-        module.__dict__.update(_sym_in=_sym_in, _sym_getitem=_sym_getitem, _sym_fmt=_sym_fmt, _cov=_cov, _loop_tick=_loop_tick)
+        module.__dict__.update(_sym_in=_sym_in, _sym_getitem=_sym_getitem, _sym_fmt=_sym_fmt, _sym_join=_sym_join, _cov=_cov, _loop_tick=_loop_tick)
         super().exec_module(module)
         # shims go in AFTER exec: they replace the names the module imported (math, datetime, ...)
         from . import models
